@@ -16,6 +16,7 @@ import (
 	"strings"
 
 	"github.com/ohler55/slip"
+	"github.com/ohler55/slip/pkg/bag"
 	"github.com/ohler55/slip/pkg/flavors"
 	"verif/harness/lib"
 )
@@ -60,6 +61,12 @@ func c18Avoids(c *lib.Ctx) c18Avoid {
 		if strings.Contains(f.Signature, "value=str-number-like") {
 			a.numberLikeStr = true
 		}
+		if strings.Contains(f.Signature, "str-sign-led") {
+			a.signLedStr = true
+		}
+		if strings.Contains(f.Signature, "str-backtick") {
+			a.backtickStr = true
+		}
 	}
 	return a
 }
@@ -92,32 +99,49 @@ func sig(op, steps, value, aspect string) string {
 // text family
 
 func (r *c18Run) runText(cases []*c18Case) {
-	// round A: the model writes every document
-	reqs := make([]string, len(cases))
-	for i, cs := range cases {
-		reqs[i] = "json write " + cs.Layout + " " + cs.Doc
+	// round A: the model writes every document, as JSON and as SEN, and names the writer branch of
+	// every option list (Model/JsonWrite.lean applyKws / writerOf)
+	reqs := make([]string, 0, 2*len(cases))
+	for _, cs := range cases {
+		reqs = append(reqs, "json write "+cs.Layout+" "+cs.Doc, "json writesen "+cs.Layout+" "+cs.Doc)
+	}
+	var optReqs []string
+	for _, cs := range cases {
+		for _, opt := range cs.Opts {
+			optReqs = append(optReqs, "json wopts T 80 "+opt.w().wire())
+		}
 	}
 	texts := r.c.Model(reqs)
+	modes := r.c.Model(optReqs)
+	modeAt := 0
 	type pend struct {
 		cs   *c18Case
 		doc  *jv
 		opt  c18Opts
 		text string
+		mode string
 	}
 	var pends []pend
 	var reqB []string
 	for i, cs := range cases {
 		doc := parseDoc(cs.Doc)
-		if doc == nil || !strings.HasPrefix(texts[i], "ok s") {
-			fmt.Println("C18 harness bug: bad text case", cs.Doc, texts[i])
+		myModes := modes[modeAt : modeAt+len(cs.Opts)]
+		modeAt += len(cs.Opts)
+		if doc == nil || !strings.HasPrefix(texts[2*i], "ok s") || !strings.HasPrefix(texts[2*i+1], "ok s") {
+			fmt.Println("C18 harness bug: bad text case", cs.Doc, texts[2*i], texts[2*i+1])
 			continue
 		}
-		textM := lib.Unhex(texts[i][4:])
+		textM := lib.Unhex(texts[2*i][4:])
+		textS := lib.Unhex(texts[2*i+1][4:])
 		r.c.Ev.Case("text "+cs.Doc+cs.Layout, doc.depth() >= 2)
 		r.c.Ev.Hist("family", "text")
+		kindOf := doc.firstKind()
+		if cs.Cell == "key" && doc.kind == 'o' && len(doc.keys) == 1 {
+			kindOf = "key-" + strKind(doc.keys[0])
+		}
 		b1, o := r.impl.makeBag(textM, cs.Via)
 		if !o.Ok {
-			r.check(cs, false, c18Diff{sig: sig("parse", "-", doc.firstKind(), "condition"), observed: "err " + o.Class + " " + o.Msg,
+			r.check(cs, false, c18Diff{sig: sig("parse", "-", kindOf, "condition"), observed: "err " + o.Class + " " + o.Msg,
 				expected: "a bag equal to the document", from: "model:json.write", relies: []string{"SlipVerif.Json.write_parse_roundtrip"}})
 			continue
 		}
@@ -128,14 +152,28 @@ func (r *c18Run) runText(cases []*c18Case) {
 		if dk != "" {
 			continue
 		}
-		for _, opt := range cs.Opts {
+		// … and on the value of the model's SEN text (bare words, no commas)
+		if bs, so := r.impl.makeBag(textS, cs.Via+2); !so.Ok {
+			r.check(cs, false, c18Diff{sig: sig("parse-sen", "-", kindOf, "condition"), observed: fmt.Sprintf("%q: err %s %s", textS, so.Class, so.Msg),
+				expected: "a bag equal to the document", from: "model:json.writesen", relies: []string{"SlipVerif.Json.sen_write_parse_roundtrip"}})
+		} else {
+			dks := diffKind(doc, doc.toAnyTree(), bs.Any, canonAny)
+			r.check(cs, dks == "", c18Diff{sig: sig("parse-sen", "-", dks, "wrong-value"), observed: fmt.Sprintf("%q parses to %s", textS, canonAny(bs.Any)), expected: doc.canon(),
+				from: "model:json.writesen", relies: []string{"SlipVerif.Json.sen_write_parse_roundtrip"}})
+		}
+		for oi, opt := range cs.Opts {
 			w := opt.w()
-			r.c.Ev.Hist("write_mode", w.mode())
+			mode := w.mode()
+			// the branch the model derives from the keyword list must be the one the harness names
+			if f := strings.Fields(myModes[oi]); len(f) < 2 || f[0] != "ok" || f[1] != mode {
+				fmt.Println("C18 harness bug: writer mode", w.String(), "harness", mode, "model", myModes[oi])
+			}
+			r.c.Ev.Hist("write_mode", mode)
 			wo := r.impl.write(b1, w)
 			one := *cs
 			one.Opts = []c18Opts{opt}
 			if !wo.Ok {
-				r.check(&one, false, c18Diff{sig: sig("write", w.mode(), doc.firstKind(), "condition"), observed: "err " + wo.Class + " " + wo.Msg,
+				r.check(&one, false, c18Diff{sig: sig("write", mode, kindOf, "condition"), observed: "err " + wo.Class + " " + wo.Msg,
 					expected: "text", from: "property statement"})
 				continue
 			}
@@ -143,22 +181,40 @@ func (r *c18Run) runText(cases []*c18Case) {
 				r.checkPristine(&one, "after-write-keywords")
 			}
 			text1 := string(wo.Value.(slip.String))
+			// the destination: the same text arrives at an output stream, and nil is returned
+			if (i+oi)%3 == 0 {
+				r.checkStream(&one, b1, w, text1, mode, kindOf)
+			}
 			b2, po := r.impl.makeBag(text1, cs.Via+1)
 			if !po.Ok {
-				r.check(&one, false, c18Diff{sig: sig("write-parse", w.mode(), doc.firstKind(), "unparsable"), observed: "written text " + fmt.Sprintf("%q", text1) + " does not parse: " + po.Msg,
+				r.check(&one, false, c18Diff{sig: sig("write-parse", mode, kindOf, "unparsable"), observed: "written text " + fmt.Sprintf("%q", text1) + " does not parse: " + po.Msg,
 					expected: "text that parses to an equal bag", from: "impl:parse-write-parse"})
 				continue
 			}
 			dk := diffKind(doc, b1.Any, b2.Any, strictAny)
-			r.check(&one, dk == "", c18Diff{sig: sig("write-parse", w.mode(), dk, "reparse-differs"),
+			if dk != "" && strings.HasPrefix(kindOf, "key-") {
+				dk = kindOf
+			}
+			r.check(&one, dk == "", c18Diff{sig: sig("write-parse", mode, dk, "reparse-differs"),
 				observed: fmt.Sprintf("%q parses to %s", text1, strictAny(b2.Any)), expected: strictAny(b1.Any), from: "impl:parse-write-parse"})
-			if opt.JSON == 1 && dk == "" {
-				pends = append(pends, pend{&one, doc, opt, text1})
-				reqB = append(reqB, "json parse s"+lib.Hex(text1))
+			// bag-compare is the package's own equality of bags: it must agree
+			if dk == "" {
+				co := r.impl.eval("(bag-compare c18-a c18-b)", map[string]slip.Object{"c18-a": b1, "c18-b": b2})
+				r.check(&one, co.Ok && co.Value == nil, c18Diff{sig: sig("write-parse", mode, kindOf, "compare-differs"),
+					observed: fmt.Sprintf("(bag-compare original reparsed) => %s %s", slip.ObjectString(co.Value), co.Msg), expected: "nil", from: "impl:parse-write-parse"})
+			}
+			if dk == "" {
+				pends = append(pends, pend{&one, doc, opt, text1, mode})
+				if opt.JSON == 1 {
+					reqB = append(reqB, "json parse s"+lib.Hex(text1))
+				} else {
+					reqB = append(reqB, "json parsesen s"+lib.Hex(text1))
+				}
 			}
 		}
 	}
-	// round B: the model parses what the implementation wrote as JSON
+	// round B: the model parses what the implementation wrote: JSON with the strict reader, SEN with
+	// the SEN reader
 	replies := r.c.Model(reqB)
 	for i, p := range pends {
 		exp := p.doc.canon()
@@ -177,9 +233,37 @@ func (r *c18Run) runText(cases []*c18Case) {
 				}
 			}
 		}
-		r.check(p.cs, got == exp, c18Diff{sig: sig("model-parse", p.opt.w().mode(), dk, "wrong-value"),
+		r.check(p.cs, got == exp, c18Diff{sig: sig("model-parse", p.mode, dk, "wrong-value"),
 			observed: fmt.Sprintf("the model reads %q as %s", p.text, got), expected: exp, from: "model:json.parse"})
 	}
+}
+
+// checkStream: bag-write / :write with an output stream as destination writes exactly the text it
+// returns for a nil destination, and returns nil.
+func (r *c18Run) checkStream(cs *c18Case, b *flavors.Instance, w c18WriteOpts, text, mode, kind string) {
+	src := "(let ((c18-out (make-string-output-stream))) (list (bag-write c18-b c18-out " + w.String() + ") (get-output-stream-string c18-out)))"
+	if w.viaSend {
+		src = "(let ((c18-out (make-string-output-stream))) (list (send c18-b :write c18-out " + w.String() + ") (get-output-stream-string c18-out)))"
+	}
+	o := r.impl.eval(src, map[string]slip.Object{"c18-b": b})
+	ok := false
+	obs := "err " + o.Class + " " + o.Msg
+	if o.Ok {
+		if l, isl := o.Value.(slip.List); isl && len(l) == 2 {
+			s, _ := l[1].(slip.String)
+			// without :pretty the members of an object are written in Go's map order, which differs
+			// from call to call: the two texts are compared as the bags they parse to, and by length
+			ok = l[0] == nil && len(s) == len(text)
+			if ok && string(s) != text {
+				b1, o1 := r.impl.makeBag(text, 0)
+				b2, o2 := r.impl.makeBag(string(s), 0)
+				ok = o1.Ok == o2.Ok && (!o1.Ok || strictAny(b1.Any) == strictAny(b2.Any))
+			}
+			obs = fmt.Sprintf("returned %s, stream received %q", slip.ObjectString(l[0]), string(s))
+		}
+	}
+	r.c.Ev.Hist("write_destination", "stream")
+	r.check(cs, ok, c18Diff{sig: sig("write-stream", mode, kind, "wrong-text"), observed: obs, expected: fmt.Sprintf("nil returned, stream received %q", text), from: "impl:write-nil-vs-stream"})
 }
 
 // firstKind: the value kind of a one-leaf sweep document, else the root's kind.
@@ -305,12 +389,13 @@ func (r *c18Run) runSimplify(cases []*c18Case) {
 		r.c.Ev.Case("simple "+cs.GoVal, v.kind == '[' || v.kind == '{')
 		r.c.Ev.Hist("family", "simplify")
 		r.c.Ev.Hist("go_kind", v.kindName())
-		parts := strings.SplitN(strings.TrimPrefix(replies[i], "ok "), " | ", 2)
-		if len(parts) != 2 {
+		parts := strings.SplitN(strings.TrimPrefix(replies[i], "ok "), " | ", 3)
+		if len(parts) != 3 || len(parts[2]) < 2 {
 			fmt.Println("C18 harness bug: simple reply", replies[i])
 			continue
 		}
 		r.c.Ev.Hist("simplify_guard", map[bool]string{true: "inside", false: "outside"}[strings.HasPrefix(parts[0], "T ")])
+		r.c.Ev.Hist("go_into_bag_guard", map[bool]string{true: "inside", false: "outside"}[strings.HasPrefix(parts[2], "T ")])
 		expL := canonTokenString(parts[0][2:])
 		expG := canonTokenString(parts[1])
 		var obj slip.Object
@@ -334,6 +419,27 @@ func (r *c18Run) runSimplify(cases []*c18Case) {
 		gotG := canonTokenString(strings.Join(encGo(back), " "))
 		r.check(cs, gotG == expG, c18Diff{sig: sig("simplify", "-", kind, "wrong-go-value"), observed: gotG, expected: expG, from: "model:json.simple",
 			relies: []string{"SlipVerif.Json.simplify_roundtrip"}})
+		// the same Lisp object put into a bag (bag.ObjectToBag: make-bag, bag-set, :set)
+		expB := parts[2][2:]
+		var tree any
+		bo := lib.Protect(func() slip.Object {
+			tree = bag.ObjectToBag(r.impl.scope, obj, 0)
+			return nil
+		})
+		gotB := "err " + bo.Class
+		if bo.Ok {
+			gotB = "ok " + canonTokenString(strings.Join(encBagTree(tree), " "))
+		}
+		if strings.HasPrefix(expB, "ok ") {
+			expB = "ok " + canonTokenString(expB[3:])
+		} else {
+			expB = "err " // any condition
+			if !bo.Ok {
+				gotB = expB
+			}
+		}
+		r.check(cs, gotB == expB, c18Diff{sig: sig("go-into-bag", "-", kind, "wrong-bag"), observed: gotB + " " + bo.Msg, expected: expB, from: "model:json.simple",
+			relies: []string{"SlipVerif.Json.go_data_into_bag"}})
 	}
 }
 
@@ -382,7 +488,10 @@ func runC18(c *lib.Ctx) {
 	text, native, ops, simple = r.sweepCases()
 	multi, scan := r.sweepMulti()
 	config := r.sweepConfig()
-	nSweep := len(text) + len(native) + len(ops) + len(simple) + len(multi) + len(scan) + len(config)
+	recov := r.sweepRecover()
+	oflisp := r.sweepOfLisp()
+	twice := r.sweepTwice()
+	nSweep := len(text) + len(native) + len(ops) + len(simple) + len(multi) + len(scan) + len(config) + len(recov) + len(oflisp) + len(twice)
 	nCfgSweep := len(config)
 	for i := 0; i < c.Scale(1500, 120000); i++ {
 		config = append(config, r.randomConfigCase())
@@ -414,7 +523,17 @@ func runC18(c *lib.Ctx) {
 	for i := 0; i < c.Scale(300, 40000); i++ {
 		scan = append(scan, &c18Case{Family: "scan", Doc: strings.Join(r.g.doc(5).wire(), " "), Via: r.g.r.Intn(6), Strict: r.g.r.Bool()})
 	}
+	for i := 0; i < c.Scale(400, 40000); i++ {
+		recov = append(recov, r.randomRecoverCase())
+	}
+	for i := 0; i < c.Scale(800, 100000); i++ {
+		oflisp = append(oflisp, &c18Case{Family: "oflisp", GoVal: lw(r.randomLisp(3)), Via: r.g.r.Intn(4)})
+	}
+	for i := 0; i < c.Scale(600, 60000); i++ {
+		twice = append(twice, r.randomTwiceCase())
+	}
 	marker := func(name string) *c18Case { return &c18Case{Family: "config", Cell: "after-" + name, Sweep: true} }
+	r.runRecover(recov[:len(recov)/2])
 	chunk(0)
 	r.runMulti(multi)
 	r.checkPristine(marker("multi"), "after-multi")
@@ -433,6 +552,10 @@ func runC18(c *lib.Ctx) {
 	chunk(5)
 	r.runSimplify(simple)
 	r.checkPristine(marker("simplify"), "after-simplify")
+	r.runOfLisp(oflisp)
+	r.runTwice(twice)
+	r.runRecover(recov[len(recov)/2:])
+	c.Ev.Coverage["parser_healed_outside_recover_family"] = r.impl.healed
 	_ = nCfgSweep
 	if os.Getenv("C18_DUMP") != "" { // development aid: every distinct signature with its first case
 		for _, v := range c.Violations {
@@ -443,7 +566,7 @@ func runC18(c *lib.Ctx) {
 	c.Ev.Coverage["traces_validated_against_impl"] = r.total
 	c.Ev.Coverage["agreements"] = r.agree
 	c.Ev.Coverage["sweep_cases"] = nSweep
-	c.Ev.Coverage["composite_cases"] = len(text) + len(native) + len(ops) + len(simple) + len(multi) + len(scan) + len(config) - nSweep
+	c.Ev.Coverage["composite_cases"] = len(text) + len(native) + len(ops) + len(simple) + len(multi) + len(scan) + len(config) + len(recov) + len(oflisp) + len(twice) - nSweep
 	avoided := []string{}
 	if r.g.avoid.bigInt {
 		avoided = append(avoided, "integers ojg holds as json.Number")
@@ -471,7 +594,7 @@ func runC18(c *lib.Ctx) {
 	}
 	sort.Strings(avoided)
 	c.Ev.Coverage["composite_avoids"] = avoided
-	c.Ev.Coverage["rule"] = "cases = (document, write options) / (document) / (document, op sequence <= 6) / (Go value); sweep = single-cause cells (one leaf kind x placement x writer mode; one op x one or two step path x small document), seed independent; non-trivial = path length >= 2 or container nesting >= 2; distinct by case text"
+	c.Ev.Coverage["rule"] = "cases = (document, model layout, write option lists: JSON and SEN text in both directions, stream destination, bag-compare) / (document: bag-native and back) / (document, op sequence <= 6) / (Go value: Simplify(SimpleObject) and ObjectToBag(SimpleObject)) / (Lisp value into a bag) / (documents through a multi-document entry point) / (document: scan) / (history of settings, document, entry) / (bad text, entry, valid documents through every entry) / (document parsed twice and a third time through 16 entries, edit at depth 1..3); sweep = single-cause cells (one leaf kind x placement x writer mode; one op x one or two step path x small document; path shape x value kind incl. null x depth 1..3 x path form; one bad text x entry; one Lisp value x entry; one document x entry x edit depth), seed independent; non-trivial = path length >= 2 or container nesting >= 2 or two or more documents; distinct by case text"
 }
 
 // randomMultiCase: 1..5 documents through one of the entry points that hand out bags.
@@ -580,6 +703,12 @@ func (r *c18Run) replay() {
 		r.runScan([]*c18Case{cs})
 	case "config":
 		r.runConfig([]*c18Case{cs})
+	case "recover":
+		r.runRecover([]*c18Case{cs})
+	case "oflisp":
+		r.runOfLisp([]*c18Case{cs})
+	case "twice":
+		r.runTwice([]*c18Case{cs})
 	}
 	fmt.Printf("replay family=%s recorded signature: %s\n", cs.Family, rec.Signature)
 	for _, v := range r.c.Violations {
